@@ -223,6 +223,8 @@ pub fn reset() {
         l.violations.clear();
         l.ring_fd_closed.clear();
     });
+    // Numbers are unique within one history.
+    FLOOR.store(1000, Ordering::Relaxed);
 }
 
 /// Is `fd` open according to the OS?
